@@ -330,12 +330,12 @@ func (vc *VC) rangeFact(term string, t types.Type) string {
 	case *types.Pointer, *types.Map, *types.Chan, *types.Signature:
 		return fmt.Sprintf("(<= 0 %s)", term)
 	case *types.Slice:
-		return fmt.Sprintf("(and (<= 0 (s_arr %s)) (<= 0 (s_off %s)) (<= 0 (s_len %s)) (<= (s_len %s) (s_cap %s)) (=> (= (s_arr %s) 0) (= (s_cap %s) 0)))", term, term, term, term, term, term, term)
+		return fmt.Sprintf("(and (<= 0 (s_arr %s)) (<= 0 (s_off %s)) (<= 0 (s_len %s)) (<= (s_len %s) (s_cap %s)) (<= (+ (s_off %s) (s_cap %s)) 9223372036854775807) (=> (= (s_arr %s) 0) (= (s_cap %s) 0)))", term, term, term, term, term, term, term, term, term)
 	case *types.Interface:
 		return fmt.Sprintf("(and (<= 0 (i_tag %s)) (<= 0 (i_ref %s)) (=> (= (i_tag %s) 0) (= (i_ref %s) 0)))", term, term, term, term)
 	case *types.Basic:
 		if u.Info()&types.IsString != 0 {
-			return fmt.Sprintf("(<= 0 (slen %s))", term)
+			return fmt.Sprintf("(and (<= 0 (slen %s)) (<= (slen %s) 9223372036854775807))", term, term)
 		}
 	case *types.Struct:
 		if vc.isOpaqueStruct(t) {
@@ -390,4 +390,31 @@ func sortedKeys[V any](m map[string]V) []string {
 	}
 	sort.Strings(ks)
 	return ks
+}
+
+// allocFact states that the references held by term (of Go type t) are nil or
+// allocated in allocation state a.
+func (vc *VC) allocFact(term string, t types.Type, a string) string {
+	if _, ok := t.(*GhostArr); ok {
+		return ""
+	}
+	if _, ok := atomicContent(t); ok {
+		return ""
+	}
+	switch t.Underlying().(type) {
+	case *types.Pointer, *types.Map, *types.Chan:
+		return fmt.Sprintf("(< %s %s)", term, a)
+	case *types.Slice:
+		return fmt.Sprintf("(< (s_arr %s) %s)", term, a)
+	case *types.Interface:
+		return fmt.Sprintf("(< (i_ref %s) %s)", term, a)
+	}
+	return ""
+}
+
+// valueFacts assumes the range and allocation facts of a value that enters
+// the computation from outside (parameter, load, call result).
+func (vc *VC) valueFacts(term string, t types.Type) {
+	vc.assume(vc.rangeFact(term, t))
+	vc.assume(vc.allocFact(term, t, vc.get("alloc", "Int")))
 }
